@@ -11,7 +11,7 @@ from prop import SchedProp  # noqa: E402
 class C02(SchedProp):
     id = 'C02'
     kinds = ('any', 'any', 'complete')
-    gen_opts = {'late': 0.2}
+    gen_opts = {'late': 0.2, 'prep_fail': 0.15}
     props_modules = ['CylcModel.Props.C02']
     theorems = [
         'CylcModel.C02.no_double_submit',
